@@ -1414,3 +1414,126 @@ func TestVerifC19MidHandshake(t *testing.T) {
 		}
 	}
 }
+
+// ---------------------------------------------------------------- export at VerifyConnection time
+
+type c19VC struct {
+	Kind       string     `json:"kind"`
+	Variant    c19Variant `json:"variant"`
+	Side       string     `json:"side"`
+	Called     int        `json:"called"` // how often the callback ran
+	Captured   *c19PState `json:"captured,omitempty"`
+	MarshalErr string     `json:"marshal_err"`
+	DecodeErr  string     `json:"decode_err"`
+	ResumeErr  string     `json:"resume_err"`     // resumeWithConfig from the decoded copy
+	ResumeObj  string     `json:"resume_obj_err"` // resumeWithConfig from the captured State itself
+	StartErr   string     `json:"start_err"`
+	Wire       []c19Wire  `json:"wire"` // records a (wrongly) resumed connection put on the wire
+	Panic      string     `json:"panic"`
+	Hex        string     `json:"hex,omitempty"`
+}
+
+// TestVerifC19VerifyConn: the *State handed to a VerifyConnection callback is captured before the
+// handshake switched to its keys (local epoch 0). It serialises and decodes, but it must not
+// resume: a connection resumed from it would count as established and write in epoch 0.
+func TestVerifC19VerifyConn(t *testing.T) {
+	out := newVOut(t)
+	suites := c19Suites()
+	c19RSA()
+	vGetCreds()
+	variants := []c19Variant{
+		c19WithFeatures(suites[0], 0, false, false, false, false, 0),
+		c19WithFeatures(suites[4], 2, true, false, true, false, 0),
+		c19WithFeatures(suites[7], 1, true, true, true, true, 1),
+		c19WithFeatures(suites[11], 0, false, false, false, true, 0),
+		c19WithFeatures(suites[13], 1, true, true, true, false, 1),
+		c19WithFeatures(suites[5], 0, false, false, true, false, 2),
+	}
+	if vIsThorough() {
+		variants = nil
+		for _, sv := range suites {
+			variants = append(variants, c19WithFeatures(sv, 0, false, false, false, false, 0),
+				c19WithFeatures(sv, 1, true, true, true, true, 1))
+		}
+	}
+	for _, v := range variants {
+		for _, side := range []string{"client", "server"} {
+			v, side := v, side
+			res := c19VC{Kind: "verifyconn", Variant: v, Side: side, Wire: []c19Wire{}}
+			vBubble(t, func(t *testing.T) {
+				stores := [2]*c19Store{{m: map[string]Session{}}, {m: map[string]Session{}}}
+				if v.Sess == 2 {
+					c0, s0 := c19Configs(v, stores)
+					l0 := c19Establish(t, c0, s0)
+					c19Quiet(l0.Client)
+					c19Quiet(l0.Server)
+				}
+				ccfg, scfg := c19Configs(v, stores)
+				selfCfg := ccfg
+				if side == "server" {
+					selfCfg = scfg
+				}
+				var captured *State
+				selfCfg.verifyConnection = func(s *State) error {
+					res.Called++
+					cp := *s
+					captured = &cp
+
+					return nil
+				}
+				lab := c19Establish(t, ccfg, scfg)
+				self, peer := lab.peer(side), lab.other(side)
+				peerCIDLen := len(dtlsstate.CommonState(peer.Conn.state).LocalConnectionID())
+				defer func() {
+					c19Quiet(self)
+					c19Quiet(peer)
+				}()
+				if captured == nil {
+					return
+				}
+				cp := c19Public(captured)
+				res.Captured = &cp
+				func() {
+					defer func() {
+						if r := recover(); r != nil {
+							res.Panic = fmt.Sprint(r)
+						}
+					}()
+					raw, err := captured.MarshalBinary()
+					res.MarshalErr = vErrString(err)
+					if err != nil {
+						return
+					}
+					res.Hex = vHex(raw)
+					dec := &State{}
+					err = dec.UnmarshalBinary(raw)
+					res.DecodeErr = vErrString(err)
+					_, errObj := captured.generateInternalState()
+					res.ResumeObj = vErrString(errObj)
+					if err != nil {
+						return
+					}
+					_ = self.EP.Close()
+					synctest.Wait()
+					newEP := lab.Net.endpoint(self.Name)
+					mark := lab.Net.count()
+					resumed, err := resumeWithConfig(dec, newEP, vAddr(peer.Name), selfCfg)
+					res.ResumeErr = vErrString(err)
+					if err != nil {
+						_ = newEP.Close()
+
+						return
+					}
+					// not refused: show what such a connection does
+					rp := &vPeer{Name: self.Name, EP: newEP, Conn: resumed, Done: make(chan struct{})}
+					res.StartErr = vErrString(c19Start(rp))
+					c19Write(resumed, []byte("from-a-pre-key-state"))
+					synctest.Wait()
+					res.Wire = c19WireOf(lab.Net.since(mark), self.Name, peerCIDLen)
+					c19Quiet(rp)
+				}()
+			})
+			out.emit(res)
+		}
+	}
+}
